@@ -348,6 +348,9 @@ mod result;
 #[doc(hidden)]
 pub mod statements;
 mod util;
+#[cfg(exmex_verif)]
+#[doc(hidden)]
+pub mod verif;
 
 #[cfg(feature = "partial")]
 pub use data_type::DiffDataType;
